@@ -1,4 +1,5 @@
 import CircusProofs.Core.ConvReap
+import CircusProofs.Core.ConvSurplus
 import CircusProofs.Props.C01Conv
 /-!
 # C01 — convergence, generalised
@@ -29,6 +30,25 @@ listed worker running and spawns what is missing (C01Conv).
   with exactly `N` running workers: the `m` old ones, in their order, then `N - m` fresh pids;
 * `C01_converged_after_deaths_stays` — further checks change neither the list nor the log;
 * `C01_converges_keeps_workers` — the pid-tracked form of C01Conv's theorem (no deaths).
+
+## B. surplus ("accepted decr / set numprocesses")
+
+Setting (`Idle u s`, `SurplusOk u N w s`): the watcher lists `m > N` pairwise different pids, all running, each with
+its `Process` object (no kill in flight, exit code not cached); `stop_children` off, no hooks, the stop signal a real
+terminating signal other than SIGKILL, `graceful_timeout > 0`; the kernel is still and workers have no children of their
+own (`Kernel.Base`); the workers to be removed exit at once on the stop signal (`Kernel.Obed`; the others may behave
+as they like).  `manage_processes` sorts the `Process` objects by start time, newest first (stable), and calls
+`kill_process` for all but the first `N` under one `gen.multi` (`surplus`).
+
+* `C01_surplus_is_the_oldest` — which workers go: `m - N` of the listed ones, pairwise different, each started no later
+  than any worker that stays;
+* `C01_check_stops_surplus` — the whole `check` step: exactly these get the stop signal (one `kill` event each), die and
+  are collected within the step (`obedLogs`); they leave the dict without a `reap` event (`manage_processes` pops them
+  itself); the `N` newest stay listed in their order, running; nothing is in flight afterwards;
+* `C01_surplus_converged_stays` — … and any number of further checks changes neither the list nor the log.
+Workers that *ignore* the stop signal make the check park on 100 ms timers (one `kill_process` coroutine each, then
+SIGKILL after `⌈graceful/100 ms⌉` polls): the machinery for that polling phase is Core/StopRunG.lean (`stop`, `rm`,
+`quit`), stated for the `kill_processes` of a whole watcher; it is not instantiated for the surplus branch here.
 -/
 namespace Circus.Core
 
@@ -168,6 +188,103 @@ example : (run c01sD [.check]).ws.map (·.pids) = [[102, 106]] ∧
     (run c01sD [.check, .wake, .wake]).frames.length = 0 ∧ (run c01sD [.check, .wake, .wake]).sleepers.length = 0 ∧
     (run c01sD [.check, .wake, .wake]).a.slot = none ∧
     (run c01sD [.check, .wake, .wake, .check, .check]).log.length = (run c01sD [.check, .wake, .wake]).log.length := by
+  decide +kernel
+
+/-! ## B. surplus -/
+
+/-- **which workers a surplus check removes**: with `m` listed workers (each with its `Process` object, pids pairwise
+    different) and `N ≤ m` wanted, `surplus` consists of listed workers, pairwise different, exactly `m - N` of them;
+    exactly `N` stay; and every worker that stays was started no earlier than any worker that goes (**oldest first**) -/
+theorem C01_surplus_is_the_oldest (objs : List PObj) (pids : List Nat) (N : Nat)
+    (h : ∀ pid ∈ pids, ∃ o, objs.find? (fun x => decide (x.pid = pid)) = some o) (hnd : pids.Nodup) (hN : N ≤ pids.length) :
+    (∀ p ∈ surplus objs pids N, p ∈ pids) ∧ (surplus objs pids N).Nodup ∧ (surplus objs pids N).length = pids.length - N ∧
+    (pids.filter (fun p => decide (p ∉ surplus objs pids N))).length = N ∧
+    ∀ kept ∈ pids, kept ∉ surplus objs pids N → ∀ gone ∈ surplus objs pids N,
+      ∀ ok og, objs.find? (fun x => decide (x.pid = kept)) = some ok → objs.find? (fun x => decide (x.pid = gone)) = some og →
+        og.started ≤ ok.started :=
+  ⟨surplus_sub objs pids N h, surplus_nodup objs pids N h hnd, surplus_length objs pids N h,
+   kept_length objs pids N h hnd hN, surplus_oldest objs pids N⟩
+
+/-- **the check stops exactly the surplus, oldest first, and is done within the step**: from an idle state whose
+    (only, active) watcher lists `m > N = numprocesses` running workers, the surplus ones obeying the stop signal,
+    the `check` step ends idle — no frame, timer, future, ready callback, the slot free; the watcher lists exactly the
+    workers outside `surplus`, in their old order, all running in a still kernel; the log of the step is exactly
+    `obedLogs`: per surplus worker, in sort order, the stop signal, its `kill` event and the `waitpid` that collects
+    it — no spawn, no SIGKILL, no `reap` event; every surplus worker is gone from the kernel; no pid was allocated. -/
+theorem C01_check_stops_surplus (u N : Nat) (w : Watcher) (s : State) (hi : Idle u s) (hd : SurplusOk u N w s)
+    (hgt : N < w.pids.length) :
+    Idle u (step s .check) ∧
+    DatL u N (w.pids.filter (fun p => decide (p ∉ surplus s.objs w.pids N))) (step s .check) ∧
+    (w.pids.filter (fun p => decide (p ∉ surplus s.objs w.pids N))).length = N ∧
+    (step s .check).log = obedLogs s.a w (surplus s.objs w.pids N) s.log ∧
+    (∀ q ∈ surplus s.objs w.pids N, (step s .check).k.GoneP q) ∧
+    (step s .check).k.nextPid = s.k.nextPid := by
+  obtain ⟨h1, h2, h3, h4, h5, _⟩ := check_surplus_obed u N w s hi hd hgt
+  have hobj : ∀ pid ∈ w.pids, ∃ o, s.objs.find? (fun x => decide (x.pid = pid)) = some o := fun pid hp => by
+    obtain ⟨_, o, ho, _⟩ := hd.procs pid hp; exact ⟨o, ho⟩
+  exact ⟨h1, h2, kept_length s.objs w.pids N hobj hd.nodup (by omega), h3, h4, h5⟩
+
+/-- **… and stays there**: after the check any number of further checks leaves the same `N` workers listed and
+    running, nothing in flight, and adds nothing to the log -/
+theorem C01_surplus_converged_stays (u N n : Nat) (w : Watcher) (s : State) (hi : Idle u s) (hd : SurplusOk u N w s)
+    (hgt : N < w.pids.length) :
+    Idle u (run s (.check :: List.replicate n .check)) ∧
+    DatL u N (w.pids.filter (fun p => decide (p ∉ surplus s.objs w.pids N))) (run s (.check :: List.replicate n .check)) ∧
+    (run s (.check :: List.replicate n .check)).log = obedLogs s.a w (surplus s.objs w.pids N) s.log :=
+  check_surplus_stays u N n w s hi hd hgt
+
+/-! ### non-vacuity: three workers started 700 ms apart, then numprocesses is 1 -/
+
+def c01S0 : State := initState c01Cfg [{ spawnMs := 20 }] 0
+def c01S1 : State := run c01S0 [.check, .wake, .wake, .wake]
+def c01wS : Watcher := { name := "a", np := 1, status := .active, warmup := 700, uid := 1, pids := [100, 101, 102] }
+/-- the converged state with the target lowered to 1 (as `set numprocesses` writes it) -/
+def c01sS : State := { c01S1 with ws := [c01wS] }
+
+theorem c01sS_idle : Idle 1 c01sS :=
+  ⟨by decide +kernel, by decide +kernel, by decide +kernel, by decide +kernel, by decide +kernel, by decide +kernel,
+   by decide +kernel, by decide +kernel, by decide +kernel⟩
+
+theorem c01sS_ok : SurplusOk 1 1 c01wS c01sS where
+  ws := rfl
+  wok := ⟨rfl, rfl, rfl, rfl, rfl, rfl, rfl, by decide⟩
+  tok := ⟨⟨rfl, rfl, rfl, by decide⟩, by decide, by decide⟩
+  polls := by decide
+  nodup := by decide
+  blocked := by decide +kernel
+  still := ⟨by decide +kernel, by decide +kernel, by decide +kernel, by decide +kernel, by decide +kernel, by decide +kernel⟩
+  base := ⟨by decide +kernel, by decide +kernel, by decide +kernel, by decide +kernel, by decide +kernel⟩
+  procs := by
+    intro pid hp
+    have : workerOkB c01sS pid = true := by
+      simp only [c01wS, List.mem_cons, List.mem_nil_iff, or_false] at hp
+      rcases hp with rfl | rfl | rfl <;> decide +kernel
+    exact workerOkB_spec this
+  obed := by
+    intro pid hp
+    have hs : surplus c01sS.objs c01wS.pids 1 = [101, 100] := by decide +kernel
+    rw [hs] at hp
+    have : c01sS.k.obedB pid = true := by
+      simp only [List.mem_cons, List.mem_nil_iff, or_false] at hp
+      rcases hp with rfl | rfl <;> decide +kernel
+    exact Kernel.obedB_spec this
+
+-- the lowered target is what the converged watcher differs in
+example : c01S1.ws.map (fun w => (w.pids, w.np)) = [([100, 101, 102], 3)] ∧ c01sS.objs.map (fun o => (o.pid, o.started)) =
+    [(100, 0), (101, 700), (102, 1400)] ∧ surplus c01sS.objs c01wS.pids 1 = [101, 100] := by decide +kernel
+
+example : ∃ w', (step c01sS .check).ws = [w'] ∧ w'.pids = [102] := by
+  obtain ⟨_, ⟨w', h1, _, h3, _⟩, _⟩ := C01_check_stops_surplus 1 1 c01wS c01sS c01sS_idle c01sS_ok (by decide)
+  have hs : surplus c01sS.objs c01wS.pids 1 = [101, 100] := by decide +kernel
+  rw [hs] at h3
+  exact ⟨w', h1, h3⟩
+
+-- the same step evaluated: 101 and 100 (the two oldest) signalled and collected, 102 stays; nothing in flight; the next check is silent
+example : (run c01sS [.check]).ws.map (·.pids) = [[102]] ∧
+    ((run c01sS [.check]).log.drop c01sS.log.length).map showObs =
+      ["o sig 101 15 r", "o ev 97 kill 101 -", "o reap 101 15", "o sig 100 15 r", "o ev 97 kill 100 -", "o reap 100 15"] ∧
+    (run c01sS [.check]).frames.length = 0 ∧ (run c01sS [.check]).sleepers.length = 0 ∧ (run c01sS [.check]).a.slot = none ∧
+    (run c01sS [.check, .check]).log.length = (run c01sS [.check]).log.length := by
   decide +kernel
 
 end Circus.Core
